@@ -64,6 +64,15 @@ def w_c02b():
         return f"'from P import sub' must name P.sub when it is a scanned module: got {sorted(got)}, want {sorted(want)}"
 
 
+# ----------------------------------------------------------------------------- C04
+def w_c04a():
+    with Project({"proj/ab/m.py": "", "proj/ab/pkg/x.py": ""}) as p:
+        nodes, imps, hier = graph_snapshot(scan(p, "proj", "proj/ab/pkg"))
+    want = {("proj", "proj.ab"), ("proj.ab", "proj.ab.pkg"), ("proj.ab.pkg", "proj.ab.pkg.x")}
+    if set(hier) != want:
+        return f"ancestor packages of module_path are not linked: hierarchy edges {hier}"
+
+
 # ----------------------------------------------------------------------------- C03
 def w_c03():
     g = make_graph(["M", "P", "Q", "X"], [("Q", "P"), ("P", "M")])
@@ -325,6 +334,7 @@ WITNESSES = {
     "F-C02a": ("C02", w_c02a),
     "F-C02b": ("C02", w_c02b),
     "F-C03": ("C03", w_c03),
+    "F-C04a": ("C04", w_c04a),
     "F-C05a": ("C05", w_c05a),
     "F-C05b": ("C05", w_c05b),
     "F-C05c": ("C05", w_c05c),
